@@ -3,14 +3,30 @@ package container
 // Bounded stand-in for C14 (labelled bounded, never counted as proved): exhaustive comparison of every
 // in-memory container against a naive computation on the edge list, over ALL digraphs (self loops
 // included) on VERIF_BOUND nodes. Run in-package through go test -overlay; prints one BOUNDED-RESULT line.
+//
+// Extension (functions prefixed vx, see the block comment above vxRun): for every digraph of the bound and both
+// id schemes additionally
+//   X1 three insertion orders (all nodes first; edges first, then AddNode for the nodes no edge mentioned;
+//      AddNode/AddEdge alternating), so isolated nodes are added before, between and after AddEdge calls;
+//   X2 Normalize() of the adjacency map digraph and of the CSR digraph;
+//   X3 (bound <= 3) deletion projections for EVERY subset of real node ids x EVERY subset of real edge ids,
+//      each with and without ids the store has never seen, and the same sets split over a nested projection;
+//   X4 the complete observation is taken a second time on the same objects (queries must not change answers),
+//      and again after appending to / overwriting every slice an AdjacentNodes-style accessor returned.
+// The oracle of every extension check is the naive computation on the node list and edge list (vNaiveAdj,
+// vNaiveReach) or, for X4, the container's own first answer. Deviation classes named in env VERIF_KNOWN
+// ("|"-separated, exact class names, the name is the text in [..] at the start of a failure) are counted under
+// known_deviation_hits instead of failures; nothing is suppressed in the file itself.
 
 import (
 	"bytes"
 	"encoding/json"
 	"fmt"
 	"os"
+	"slices"
 	"sort"
 	"strconv"
+	"strings"
 	"testing"
 
 	"github.com/specterops/dawgs/cardinality"
@@ -93,8 +109,10 @@ func TestVerifBoundedContainers(t *testing.T) {
 		idSchemes[1] = append(idSchemes[1], uint64((i+1)%n))
 	}
 	graphs, comparisons := 0, 0
-	var failures []string
-	for _, ids := range idSchemes {
+	failures := []string{}
+	failuresTotal := 0
+	vx := vxNewState(&failures, &failuresTotal, &comparisons)
+	for scheme, ids := range idSchemes {
 		var pairs []vEdge
 		for _, a := range ids {
 			for _, b := range ids {
@@ -104,6 +122,7 @@ func TestVerifBoundedContainers(t *testing.T) {
 		dirs := []graph.Direction{graph.DirectionOutbound, graph.DirectionInbound, graph.DirectionBoth}
 		dirName := map[graph.Direction]string{graph.DirectionOutbound: "out", graph.DirectionInbound: "in", graph.DirectionBoth: "both"}
 		fail := func(format string, args ...any) {
+			failuresTotal++
 			if len(failures) < 5 {
 				failures = append(failures, fmt.Sprintf(format, args...))
 			}
@@ -244,9 +263,12 @@ func TestVerifBoundedContainers(t *testing.T) {
 					}
 				}
 			}
+			// extension classes X1-X4 (the objects built above are not reused, except ts for X3)
+			vx.run(scheme, n, ids, edges, len(pairs), ts.(*triplestore))
 		}
 	} // id schemes
 	fail := func(format string, args ...any) {
+		failuresTotal++
 		if len(failures) < 5 {
 			failures = append(failures, fmt.Sprintf(format, args...))
 		}
@@ -281,10 +303,666 @@ func TestVerifBoundedContainers(t *testing.T) {
 	for _, root := range []uint64{0, 5} {
 		build(3, &Segment{Node: root})
 	}
-	res := map[string]any{"name": "containers", "bound": fmt.Sprintf("all digraphs with self loops on %d nodes, two id schemes (sparse ids; dense indices in rotated insertion order)", n), "graphs": graphs, "segments": segs, "cases": comparisons, "exhaustive": true, "failures": failures}
+	res := map[string]any{"name": "containers", "bound": fmt.Sprintf("all digraphs with self loops on %d nodes, two id schemes (sparse ids; dense indices in rotated insertion order); %s", n, vx.boundText(n)), "graphs": graphs, "segments": segs, "cases": comparisons, "exhaustive": true, "failures": failures,
+		"failures_total": failuresTotal, "known_deviation_hits": vx.hits, "extension_cases": vx.counts}
 	out, _ := json.Marshal(res)
 	fmt.Println("BOUNDED-RESULT " + string(out))
 	if len(failures) > 0 {
 		t.Fail()
+	}
+}
+
+// ---------------------------------------------------------------------------------------------------------
+// Extension X1-X4
+//
+// Enumerated, per digraph G of the bound (edge list `edges` over the node list `ids`) and per id scheme:
+//
+//	X1  three build sequences (vxOps): "nodes-first" (AddNode for every id, then the edges), "edges-first" (the
+//	    edges, then AddNode only for the ids no edge mentioned - these are exactly the isolated nodes) and
+//	    "alternating" (AddNode(ids[0]), AddEdge(edges[0]), AddNode(ids[1]), AddEdge(edges[1]), ...). Each sequence is
+//	    applied to the adjacency map, the CSR builder and the triple store; the four containers (the fourth is the
+//	    projection with two empty deletion sets) are then observed completely (vxObserve): NumNodes, EachNode,
+//	    and for every id plus one id that is not a node (0 in the sparse scheme - the dense index of the first node -
+//	    and n in the dense scheme) and every direction: EachAdjacentNode, the AdjacentNodes / Degrees methods where
+//	    the container has them, the package level Degrees, Reach, BFSTree. Oracle (vxCheck): node list and the
+//	    naive adjacency / BFS on the edge list; the degree of a node is the number of its adjacent nodes.
+//	X2  Normalize() of the adjacency map digraph and the CSR digraph of every build sequence: the mapping must be
+//	    a bijection from 0..n-1 onto the node list, the normalised graph is observed completely with the ids
+//	    0..n-1 (plus n) and compared with the naive computation on the edge list renamed through the inverse of
+//	    the returned mapping; the two normalised graphs, mapped back through their own mappings, must be equal.
+//	X3  (bound <= 3) on the triple store of the main loop: for every subset DN of the node ids and every subset DE
+//	    of the edge ids, once as they are and once with never-seen ids added to both sets (among them: edge ids in
+//	    the node set and node ids in the edge set): Projection(DN, DE), and the same sets split over
+//	    Projection(DN, {}).Projection(extra, DE). Oracle: nodes = ids \ DN; kept edges = edges whose id is not in
+//	    DE and whose endpoints are not in DN; NumNodes == number of EachNode deliveries == naive count, EachNode
+//	    set, NumEdges/EachEdge, and EachAdjacentNode in three directions for every id (deleted ones included) and
+//	    a non-node == naive adjacency on the kept edges. The caller's sets must be unchanged afterwards.
+//	X4  after X1/X2 the complete observation (and Normalize) is repeated on the same objects and must be identical
+//	    to the first; then every slice returned by AdjacentNodes(), AdjacentEdges(), the package level
+//	    AdjacentNodes and Reach().Slice() gets one element appended (second round: every element overwritten) and the
+//	    complete observation must again be identical to the first.
+
+var vxDirs = []graph.Direction{graph.DirectionOutbound, graph.DirectionInbound, graph.DirectionBoth}
+
+func vxDirName(d graph.Direction) string {
+	switch d {
+	case graph.DirectionOutbound:
+		return "out"
+	case graph.DirectionInbound:
+		return "in"
+	case graph.DirectionBoth:
+		return "both"
+	}
+	return "-"
+}
+
+type vxLazy func() string
+
+func (f vxLazy) String() string { return f() }
+
+type vxQ struct {
+	what string
+	u    uint64
+	d    graph.Direction
+}
+
+func (q vxQ) String() string {
+	if q.what == "NumNodes" || q.what == "EachNode" {
+		return q.what
+	}
+	return fmt.Sprintf("%s(%d,%s)", q.what, q.u, vxDirName(q.d))
+}
+
+type vxObs struct {
+	q []vxQ
+	v [][]uint64
+}
+
+func vxSortedCopy(xs []uint64) []uint64 {
+	out := make([]uint64, len(xs))
+	copy(out, xs)
+	slices.Sort(out)
+	return out
+}
+
+func vxSortedSet(xs []uint64) []uint64 { return slices.Compact(vxSortedCopy(xs)) }
+
+type vxAdjacentNoder interface {
+	AdjacentNodes(uint64, graph.Direction) []uint64
+}
+type vxAdjacentEdger interface {
+	AdjacentEdges(uint64, graph.Direction) []uint64
+}
+type vxDegreer interface {
+	Degrees(uint64, graph.Direction) uint64
+}
+type vxNormalizer interface {
+	Normalize() ([]uint64, DirectedGraph)
+}
+
+// the complete observation of a container; never writes to anything the container returned
+func vxObserve(g DirectedGraph, qids []uint64) *vxObs {
+	o := &vxObs{}
+	add := func(what string, u uint64, d graph.Direction, v []uint64) {
+		o.q = append(o.q, vxQ{what, u, d})
+		o.v = append(o.v, v)
+	}
+	add("NumNodes", 0, 0, []uint64{g.NumNodes()})
+	var each []uint64
+	g.EachNode(func(x uint64) bool { each = append(each, x); return true })
+	slices.Sort(each)
+	add("EachNode", 0, 0, each)
+	an, hasAN := g.(vxAdjacentNoder)
+	dg, hasDG := g.(vxDegreer)
+	for _, u := range qids {
+		for _, d := range vxDirs {
+			add("EachAdjacentNode", u, d, vxSortedCopy(AdjacentNodes(g, u, d)))
+			if hasAN {
+				add("AdjacentNodes()", u, d, vxSortedCopy(an.AdjacentNodes(u, d)))
+			}
+			if hasDG {
+				add("Degrees()", u, d, []uint64{dg.Degrees(u, d)})
+			}
+			add("Degrees(g)", u, d, []uint64{Degrees(g, u, d)})
+			add("Reach", u, d, vxSortedCopy(Reach(g, u, d).Slice()))
+			terms := BFSTree(g, u, d)
+			sort.Slice(terms, func(i, j int) bool {
+				if terms[i].Node != terms[j].Node {
+					return terms[i].Node < terms[j].Node
+				}
+				return terms[i].Distance < terms[j].Distance
+			})
+			flat := make([]uint64, 0, 2*len(terms))
+			for _, term := range terms {
+				flat = append(flat, term.Node, uint64(term.Distance))
+			}
+			add("BFSTree", u, d, flat)
+		}
+	}
+	return o
+}
+
+func vxDiff(a, b *vxObs) (int, bool) {
+	if len(a.q) != len(b.q) {
+		return -1, true
+	}
+	for i := range a.q {
+		if a.q[i] != b.q[i] || !slices.Equal(a.v[i], b.v[i]) {
+			return i, true
+		}
+	}
+	return 0, false
+}
+
+// the naive computation on the node list and the edge list
+type vxNaive struct {
+	nodes []uint64 // sorted
+	edges []vEdge
+	adj   map[vxQ][]uint64       // key {"", u, d}: sorted adjacent set
+	dist  map[vxQ]map[uint64]int // key {"", u, d}: BFS distances (one or more steps)
+}
+
+func vxNewNaive(nodes []uint64, edges []vEdge, qids []uint64) *vxNaive {
+	nv := &vxNaive{nodes: vxSortedCopy(nodes), edges: edges, adj: map[vxQ][]uint64{}, dist: map[vxQ]map[uint64]int{}}
+	for _, u := range qids {
+		for _, d := range vxDirs {
+			nv.adj[vxQ{"", u, d}] = vSorted(vNaiveAdj(edges, u, d))
+			nv.dist[vxQ{"", u, d}] = vNaiveReach(edges, u, d)
+		}
+	}
+	return nv
+}
+
+type vxState struct {
+	failures    *[]string
+	total       *int
+	comparisons *int
+	known       map[string]bool
+	hits        map[string]int
+	perClass    map[string]int
+	counts      map[string]int
+}
+
+func vxNewState(failures *[]string, total *int, comparisons *int) *vxState {
+	s := &vxState{failures: failures, total: total, comparisons: comparisons, known: map[string]bool{}, hits: map[string]int{}, perClass: map[string]int{}, counts: map[string]int{}}
+	for _, c := range strings.Split(os.Getenv("VERIF_KNOWN"), "|") {
+		if c = strings.TrimSpace(c); c != "" {
+			s.known[c] = true
+		}
+	}
+	return s
+}
+
+// a deviation of class `class`: counted when the class is listed in VERIF_KNOWN, a failure otherwise (at most two
+// messages per class and eight in total are kept; failures_total counts all)
+func (s *vxState) dev(class string, format string, args ...any) {
+	if s.known[class] {
+		s.hits[class]++
+		return
+	}
+	*s.total++
+	s.perClass[class]++
+	if s.perClass[class] <= 2 && len(*s.failures) < 8 {
+		*s.failures = append(*s.failures, "["+class+"] "+fmt.Sprintf(format, args...))
+	}
+}
+
+func (s *vxState) count(what string, n int) {
+	s.counts[what] += n
+	*s.comparisons += n
+}
+
+func (s *vxState) guard(class string, ctx fmt.Stringer, f func()) {
+	defer func() {
+		if r := recover(); r != nil {
+			s.dev("panic-"+class, "panic %v; %s", r, ctx)
+		}
+	}()
+	f()
+}
+
+func (s *vxState) boundText(n int) string {
+	x3 := "deletion projections for every subset of node ids x every subset of edge ids, with and without never-seen ids, plain and nested"
+	if n > 3 {
+		x3 = "(extended deletion projections only up to 3 nodes)"
+	}
+	return "per digraph: 3 insertion orders (nodes first / edges first then the isolated nodes / alternating) x 4 containers completely observed incl. one non-node id, Normalize of adjacency map and CSR, everything observed twice and again after appending to / overwriting returned slices; " + x3
+}
+
+// compares one complete observation with the naive computation. name: the object, kind: the container type
+func (s *vxState) check(o *vxObs, nv *vxNaive, class, name, kind string, ctx fmt.Stringer) {
+	s.count(class, len(o.q))
+	for i, q := range o.q {
+		got := o.v[i]
+		key := vxQ{"", q.u, q.d}
+		switch q.what {
+		case "NumNodes":
+			if got[0] != uint64(len(nv.nodes)) {
+				s.dev(class, "%s NumNodes=%d want %d; %s", name, got[0], len(nv.nodes), ctx)
+			}
+		case "EachNode":
+			if !slices.Equal(got, nv.nodes) {
+				s.dev(class, "%s EachNode delivered %v want %v; %s", name, got, nv.nodes, ctx)
+			}
+		case "EachAdjacentNode", "AdjacentNodes()":
+			if want := nv.adj[key]; !slices.Equal(slices.Compact(slices.Clone(got)), want) {
+				s.dev(class, "%s %s=%v want the set %v; %s", name, q, got, want, ctx)
+			}
+		case "Degrees()", "Degrees(g)":
+			if want := uint64(len(nv.adj[key])); got[0] != want {
+				cls := class
+				edgesAt := uint64(len(nv.adj[vxQ{"", q.u, graph.DirectionOutbound}]) + len(nv.adj[vxQ{"", q.u, graph.DirectionInbound}]))
+				if q.d == graph.DirectionBoth && got[0] > want && got[0] <= edgesAt {
+					// the answer counts a neighbour that is both an in- and an out-neighbour (or the node itself under a
+					// self loop) more than once: its own class, so that it can be triaged separately
+					cls = "degrees-both-counts-edges-" + kind
+				}
+				s.dev(cls, "%s %s=%d want %d (adjacent nodes %v); %s", name, q, got[0], want, nv.adj[key], ctx)
+			}
+		case "Reach":
+			want := make([]uint64, 0, len(nv.dist[key]))
+			for k := range nv.dist[key] {
+				want = append(want, k)
+			}
+			slices.Sort(want)
+			if !slices.Equal(got, want) {
+				s.dev(class, "%s %s=%v want %v; %s", name, q, got, want, ctx)
+			}
+		case "BFSTree":
+			dist := nv.dist[key]
+			want := make([]uint64, 0, 2*len(dist))
+			for k := range dist {
+				want = append(want, k)
+			}
+			slices.Sort(want)
+			flat := make([]uint64, 0, 2*len(want))
+			for _, k := range want {
+				flat = append(flat, k, uint64(dist[k]))
+			}
+			if !slices.Equal(got, flat) {
+				s.dev(class, "%s %s (node,distance pairs)=%v want %v; %s", name, q, got, flat, ctx)
+			}
+		}
+	}
+}
+
+type vxOp struct {
+	node   bool
+	a, b   uint64
+	edgeID uint64
+}
+
+var vxPatternNames = []string{"nodes-first", "edges-first", "alternating"}
+
+func vxOps(pattern int, ids []uint64, edges []vEdge) []vxOp {
+	var ops []vxOp
+	nodeOp := func(id uint64) vxOp { return vxOp{node: true, a: id} }
+	edgeOp := func(i int) vxOp { return vxOp{a: edges[i].s, b: edges[i].e, edgeID: uint64(100 + i)} }
+	switch pattern {
+	case 0:
+		for _, id := range ids {
+			ops = append(ops, nodeOp(id))
+		}
+		for i := range edges {
+			ops = append(ops, edgeOp(i))
+		}
+	case 1:
+		mentioned := map[uint64]bool{}
+		for i, e := range edges {
+			ops = append(ops, edgeOp(i))
+			mentioned[e.s], mentioned[e.e] = true, true
+		}
+		for _, id := range ids {
+			if !mentioned[id] {
+				ops = append(ops, nodeOp(id))
+			}
+		}
+	default:
+		for i := 0; i < len(ids) || i < len(edges); i++ {
+			if i < len(ids) {
+				ops = append(ops, nodeOp(ids[i]))
+			}
+			if i < len(edges) {
+				ops = append(ops, edgeOp(i))
+			}
+		}
+	}
+	return ops
+}
+
+func vxOpsString(ops []vxOp) string {
+	var parts []string
+	for _, op := range ops {
+		if op.node {
+			parts = append(parts, fmt.Sprintf("AddNode(%d)", op.a))
+		} else {
+			parts = append(parts, fmt.Sprintf("AddEdge#%d(%d,%d)", op.edgeID, op.a, op.b))
+		}
+	}
+	return strings.Join(parts, " ")
+}
+
+var vxContainerNames = []string{"adjacencymap", "csr", "triplestore", "projection"}
+
+func vxBuild(ops []vxOp) map[string]DirectedGraph {
+	am := NewAdjacencyMapGraph()
+	csrB := NewCSRDigraphBuilder()
+	ts := NewTriplestore()
+	for _, op := range ops {
+		if op.node {
+			am.AddNode(op.a)
+			csrB.AddNode(op.a)
+			ts.(*triplestore).AddNode(op.a)
+		} else {
+			am.AddEdge(op.a, op.b)
+			csrB.AddEdge(op.a, op.b)
+			ts.AddTriple(op.edgeID, op.a, op.b)
+		}
+	}
+	return map[string]DirectedGraph{
+		"adjacencymap": am, "csr": csrB.Build(), "triplestore": ts,
+		"projection": ts.Projection(cardinality.NewBitmap64(), cardinality.NewBitmap64()),
+	}
+}
+
+// what a caller may do with a slice it was handed: append to it (mode 0) or overwrite its elements (mode 1)
+func vxScribble(g DirectedGraph, qids []uint64, mode int) {
+	an, hasAN := g.(vxAdjacentNoder)
+	ae, hasAE := g.(vxAdjacentEdger)
+	for _, u := range qids {
+		for _, d := range vxDirs {
+			var returned [][]uint64
+			if hasAN {
+				returned = append(returned, an.AdjacentNodes(u, d))
+			}
+			if hasAE {
+				returned = append(returned, ae.AdjacentEdges(u, d))
+			}
+			returned = append(returned, AdjacentNodes(g, u, d), Reach(g, u, d).Slice())
+			for _, sl := range returned {
+				if mode == 0 {
+					sl = append(sl, 0xDEAD0001)
+					_ = sl
+				} else {
+					for i := range sl {
+						sl[i] = ^sl[i]
+					}
+				}
+			}
+		}
+	}
+}
+
+type vxNormal struct {
+	rev  []uint64 // the returned mapping (copy)
+	back []uint64 // per original node (ascending) and direction out, in: number of neighbours, then the neighbours mapped back (sorted)
+	ok   bool
+}
+
+// X2 for one container. full: also observe the normalised graph completely against the renamed edge list
+func (s *vxState) normalize(g DirectedGraph, kind string, nv *vxNaive, full bool, ctx fmt.Stringer) vxNormal {
+	nz, has := g.(vxNormalizer)
+	if !has {
+		s.dev("normalize", "%s has no Normalize(); %s", kind, ctx)
+		return vxNormal{}
+	}
+	rev, ng := nz.Normalize()
+	res := vxNormal{rev: slices.Clone(rev)}
+	nn := len(nv.nodes)
+	s.count("normalize", 2)
+	if len(rev) != nn {
+		s.dev("normalize", "%s Normalize: mapping %v has %d entries, the graph has the %d nodes %v; %s", kind, rev, len(rev), nn, nv.nodes, ctx)
+		return res
+	}
+	if !slices.Equal(vxSortedCopy(rev), nv.nodes) {
+		s.dev("normalize", "%s Normalize: mapping %v is not a bijection onto the nodes %v; %s", kind, rev, nv.nodes, ctx)
+		return res
+	}
+	inv := map[uint64]uint64{}
+	for i, id := range res.rev {
+		inv[id] = uint64(i)
+	}
+	if full {
+		var renamed []vEdge
+		for _, e := range nv.edges {
+			renamed = append(renamed, vEdge{inv[e.s], inv[e.e]})
+		}
+		normalIDs := make([]uint64, nn)
+		for i := range normalIDs {
+			normalIDs[i] = uint64(i)
+		}
+		qids := append(slices.Clone(normalIDs), uint64(nn))
+		nvN := vxNewNaive(normalIDs, renamed, qids)
+		lazy := vxLazy(func() string { return fmt.Sprintf("mapping normal->original %v; %s", res.rev, ctx) })
+		s.check(vxObserve(ng, qids), nvN, "normalize", "normalized("+kind+")", kind, lazy)
+	}
+	res.ok = true
+	for _, u := range nv.nodes {
+		for _, d := range vxDirs[:2] {
+			var mapped []uint64
+			for _, x := range AdjacentNodes(ng, inv[u], d) {
+				if x < uint64(nn) {
+					mapped = append(mapped, res.rev[x])
+				} else {
+					mapped = append(mapped, ^uint64(0)) // not a normal id
+				}
+			}
+			slices.Sort(mapped)
+			res.back = append(res.back, uint64(len(mapped)))
+			res.back = append(res.back, mapped...)
+		}
+	}
+	// the caller owns the mapping
+	for i := range rev {
+		rev[i] = ^rev[i]
+	}
+	return res
+}
+
+func (s *vxState) run(scheme, n int, ids []uint64, edges []vEdge, numPairs int, ts0 *triplestore) {
+	nonNode := uint64(n)
+	if scheme == 0 {
+		nonNode = 0
+	}
+	qids := append(slices.Clone(ids), nonNode)
+	nv := vxNewNaive(ids, edges, qids)
+	for pattern := range vxPatternNames {
+		ops := vxOps(pattern, ids, edges)
+		ctx := vxLazy(func() string {
+			return fmt.Sprintf("order=%s build=[%s]", vxPatternNames[pattern], vxOpsString(ops))
+		})
+		s.guard("interleave", ctx, func() { s.runPattern(ops, qids, nv, ctx) })
+	}
+	if n <= 3 {
+		ctx := vxLazy(func() string {
+			return fmt.Sprintf("store: nodes %v added first, then edges (id 100+i) %v", ids, edges)
+		})
+		s.guard("projection-sets", ctx, func() { s.runProjections(ids, edges, numPairs, nonNode, ts0, ctx) })
+		s.guard("projection-sets", ctx, func() {
+			s.check(vxObserve(ts0, qids), nv, "purity-after-projections", "triplestore", "triplestore", ctx)
+		})
+	}
+}
+
+func (s *vxState) runPattern(ops []vxOp, qids []uint64, nv *vxNaive, ctx fmt.Stringer) {
+	cs := vxBuild(ops)
+	// X1: first complete observation against the naive computation
+	first := map[string]*vxObs{}
+	for _, name := range vxContainerNames {
+		first[name] = vxObserve(cs[name], qids)
+		s.check(first[name], nv, "interleave", name, name, ctx)
+	}
+	// X2
+	normal := map[string]vxNormal{}
+	for _, name := range vxContainerNames[:2] {
+		normal[name] = s.normalize(cs[name], name, nv, true, ctx)
+	}
+	if a, c := normal["adjacencymap"], normal["csr"]; a.ok && c.ok {
+		s.count("normalize", 1)
+		if !slices.Equal(a.back, c.back) {
+			s.dev("normalize", "normalised graphs mapped back through their own mappings differ: adjacencymap %v (mapping %v) csr %v (mapping %v) [per node ascending, out then in: count, neighbours]; %s", a.back, a.rev, c.back, c.rev, ctx)
+		}
+	}
+	// X4a: the same questions again on the same objects
+	for _, name := range vxContainerNames {
+		again := vxObserve(cs[name], qids)
+		s.count("purity", len(again.q))
+		if i, differs := vxDiff(first[name], again); differs {
+			s.dev("purity-"+name, "%s answers differently after read-only queries: %s; %s", name, vxDiffText(first[name], again, i), ctx)
+		}
+	}
+	for _, name := range vxContainerNames[:2] {
+		again := s.normalize(cs[name], name, nv, false, ctx)
+		s.count("purity", 1)
+		if !slices.Equal(again.rev, normal[name].rev) || !slices.Equal(again.back, normal[name].back) {
+			s.dev("purity-"+name, "%s Normalize answers differently the second time: mapping %v then %v, mapped-back adjacency %v then %v; %s", name, normal[name].rev, again.rev, normal[name].back, again.back, ctx)
+		}
+	}
+	// X4b: the caller appends to / overwrites the slices it was handed
+	for mode, modeName := range []string{"append", "overwrite"} {
+		for _, name := range vxContainerNames {
+			vxScribble(cs[name], qids, mode)
+		}
+		damaged := false
+		for _, name := range vxContainerNames {
+			after := vxObserve(cs[name], qids)
+			s.count("slice-"+modeName, len(after.q))
+			if i, differs := vxDiff(first[name], after); differs {
+				damaged = true
+				s.dev("slice-"+modeName+"-"+name, "%s answers differently after the caller did %s on every slice returned by AdjacentNodes()/AdjacentEdges()/AdjacentNodes(g)/Reach().Slice() for every node and direction: %s; %s", name, map[int]string{0: "append(s, 0xDEAD0001)", 1: "s[i] = ^s[i]"}[mode], vxDiffText(first[name], after, i), ctx)
+			}
+		}
+		if damaged {
+			cs = vxBuild(ops)
+		}
+	}
+}
+
+func vxDiffText(a, b *vxObs, i int) string {
+	if i < 0 {
+		return fmt.Sprintf("%d answers then %d", len(a.q), len(b.q))
+	}
+	return fmt.Sprintf("%s was %v now %v", a.q[i], a.v[i], b.v[i])
+}
+
+func vxAdjSorted(edges []vEdge, u uint64, d graph.Direction) []uint64 {
+	var out []uint64
+	for _, e := range edges {
+		if d != graph.DirectionInbound && e.s == u {
+			out = append(out, e.e)
+		}
+		if d != graph.DirectionOutbound && e.e == u {
+			out = append(out, e.s)
+		}
+	}
+	slices.Sort(out)
+	return slices.Compact(out)
+}
+
+// X3
+func (s *vxState) runProjections(ids []uint64, edges []vEdge, numPairs int, nonNode uint64, ts *triplestore, ctx fmt.Stringer) {
+	isNode := func(x uint64) bool { return slices.Contains(ids, x) }
+	isEdgeID := func(x uint64) bool { return x >= 100 && x < uint64(100+len(edges)) }
+	// ids the store has never seen as node ids resp. edge ids; edge ids go into the node set and node ids into the edge set
+	var strangeNodes, strangeEdges []uint64
+	for _, x := range []uint64{0, 7, 99, 100, 101, uint64(100 + numPairs), 1 << 40} {
+		if !isNode(x) {
+			strangeNodes = append(strangeNodes, x)
+		}
+	}
+	for _, x := range append(slices.Clone(ids), 0, 99, uint64(100+len(edges)), uint64(100+numPairs), 1<<40) {
+		if !isEdgeID(x) {
+			strangeEdges = append(strangeEdges, x)
+		}
+	}
+	strangeNodes, strangeEdges = vxSortedSet(strangeNodes), vxSortedSet(strangeEdges)
+	qids := append(slices.Clone(ids), nonNode)
+	for dn := 0; dn < 1<<uint(len(ids)); dn++ {
+		var delN, wantNodes []uint64
+		for i, id := range ids {
+			if dn&(1<<uint(i)) != 0 {
+				delN = append(delN, id)
+			} else {
+				wantNodes = append(wantNodes, id)
+			}
+		}
+		slices.Sort(wantNodes)
+		for de := 0; de < 1<<uint(len(edges)); de++ {
+			var delE, keptIDs []uint64
+			var kept []vEdge
+			for i, e := range edges {
+				switch {
+				case de&(1<<uint(i)) != 0:
+					delE = append(delE, uint64(100+i))
+				case slices.Contains(delN, e.s) || slices.Contains(delN, e.e):
+				default:
+					kept = append(kept, e)
+					keptIDs = append(keptIDs, uint64(100+i))
+				}
+			}
+			wantAdj := make([][]uint64, 0, len(qids)*3)
+			for _, u := range qids {
+				for _, d := range vxDirs {
+					wantAdj = append(wantAdj, vxAdjSorted(kept, u, d))
+				}
+			}
+			for variant := 0; variant < 2; variant++ {
+				allN, allE := slices.Clone(delN), slices.Clone(delE)
+				var extraN []uint64
+				if variant == 1 {
+					allN, allE = append(allN, strangeNodes...), append(allE, strangeEdges...)
+					extraN = strangeNodes
+				}
+				for nested := 0; nested < 2; nested++ {
+					bmN, bmE := cardinality.NewBitmap64With(allN...), cardinality.NewBitmap64With(allE...)
+					var proj Triplestore
+					var bmN1, bmE1, bmN2 cardinality.Duplex[uint64]
+					if nested == 0 {
+						proj = ts.Projection(bmN, bmE)
+					} else {
+						bmN1, bmE1, bmN2 = cardinality.NewBitmap64With(delN...), cardinality.NewBitmap64(), cardinality.NewBitmap64With(extraN...)
+						proj = ts.Projection(bmN1, bmE1).Projection(bmN2, bmE)
+					}
+					what := vxLazy(func() string {
+						if nested == 0 {
+							return fmt.Sprintf("Projection(deletedNodes=%v, deletedEdges=%v)", allN, allE)
+						}
+						return fmt.Sprintf("Projection(deletedNodes=%v, deletedEdges=[]).Projection(deletedNodes=%v, deletedEdges=%v)", delN, extraN, allE)
+					})
+					s.count("projection-sets", 4+len(wantAdj))
+					var each []uint64
+					proj.EachNode(func(x uint64) bool { each = append(each, x); return true })
+					slices.Sort(each)
+					if got := proj.NumNodes(); got != uint64(len(each)) || got != uint64(len(wantNodes)) {
+						s.dev("projection-sets", "%s NumNodes=%d, EachNode delivered %d nodes %v, want %d nodes %v; %s", what, got, len(each), each, len(wantNodes), wantNodes, ctx)
+					} else if !slices.Equal(each, wantNodes) {
+						s.dev("projection-sets", "%s EachNode delivered %v want %v; %s", what, each, wantNodes, ctx)
+					}
+					var eachEdge []uint64
+					proj.EachEdge(func(e Edge) bool { eachEdge = append(eachEdge, e.ID); return true })
+					slices.Sort(eachEdge)
+					if got := proj.NumEdges(); got != uint64(len(keptIDs)) || !slices.Equal(eachEdge, keptIDs) {
+						s.dev("projection-sets", "%s NumEdges=%d EachEdge delivered %v want the edges %v; %s", what, got, eachEdge, keptIDs, ctx)
+					}
+					k := 0
+					for _, u := range qids {
+						for _, d := range vxDirs {
+							if got := vxSortedSet(AdjacentNodes(proj, u, d)); !slices.Equal(got, wantAdj[k]) {
+								s.dev("projection-sets", "%s adjacent(%d,%s)=%v want %v (kept edges %v); %s", what, u, vxDirName(d), got, wantAdj[k], kept, ctx)
+							}
+							k++
+						}
+					}
+					// the sets belong to the caller
+					unchanged := bmN.Cardinality() == uint64(len(allN)) && bmE.Cardinality() == uint64(len(allE))
+					if nested == 1 {
+						unchanged = bmE.Cardinality() == uint64(len(allE)) && bmN1.Cardinality() == uint64(len(delN)) && bmE1.Cardinality() == 0 && bmN2.Cardinality() == uint64(len(extraN))
+					}
+					if !unchanged {
+						s.dev("projection-sets", "%s changed the deletion sets it was given; %s", what, ctx)
+					}
+				}
+			}
+		}
 	}
 }
